@@ -233,6 +233,12 @@ class ClassRef:
     def __init__(self, name):
         self.name = name
 
+    def __eq__(self, other):      # two references to one repo class are the same key (dispatch tables keyed by class)
+        return isinstance(other, ClassRef) and other.name == self.name
+
+    def __hash__(self):
+        return hash(("ClassRef", self.name))
+
     def __repr__(self):
         return f"<class {self.name}>"
 
